@@ -193,7 +193,8 @@ def generate(seed, tier):
         kind = r.choice(INIT_MUT) if msg <= 2 else r.choice(AUTH_MUT)
         sc['mitm'] = {'msg': msg, 'kind': kind, 'seed': r.randrange(2 ** 31)}
     elif family == 'cred':
-        how = r.choice(['psk', 'psk_other_side', 'rsa_key', 'method', 'id_data', 'id_type', 'id_type_same_data', 'id_type_same_data', 'id_other_conn'])
+        how = r.choice(['psk', 'psk_other_side', 'rsa_key', 'method', 'id_data', 'id_type', 'id_type_same_data', 'id_type_same_data', 'id_other_conn',
+                        'id_near', 'id_near'])
         side, other = (cb, ca) if r.random() < 0.5 else (ca, cb)
         auth = sc['meta']['auth']
         if how in ('psk', 'psk_other_side'):
@@ -223,6 +224,15 @@ def generate(seed, tier):
             # FQDN "abcd" against ID_IPV4_ADDR 97.98.99.100 (= b"abcd"); it holds the right credential, so AUTH itself verifies
             other['my_auth']['id'] = 'abcd'
             side['peer_auth']['id'] = '97.98.99.100'
+        elif how == 'id_near':
+            # the peer (which holds the right credential) presents an identity of the configured type that is almost the configured one:
+            # another letter case, an address whose octets are the upper / lower case counterparts (0x41 / 0x61), one more trailing octet
+            a_, b_ = r.choice([('gw-East.Example.ORG', 'gw-east.example.org'), ('BOB@example.org', 'bob@example.org'), ('192.168.0.97', '192.168.0.65'),
+                               ('10.65.66.67', '10.97.98.99'), ('gw.example.org.', 'gw.example.org'), ('fd00::4142', 'fd00::6162')])
+            if r.random() < 0.5:
+                a_, b_ = b_, a_
+            other['my_auth']['id'] = a_
+            side['peer_auth']['id'] = b_
         elif how == 'id_other_conn':
             side['peer_auth']['id'] = side['my_auth'].get('id', 'me.example.org') + '.other'
         sc['cred'] = how
